@@ -139,7 +139,14 @@ impl KmerFilter {
                             *curr_cnt = count
                         })
                         .or_insert(count);
-                    self.min_count.cmp(&count)
+                    // Pass from the minimum count on (not only on the observation that
+                    // reaches it): two k-mers with the same hash share this counter, and
+                    // neither of them may be lost once it has reached the count
+                    if count >= self.min_count {
+                        Ordering::Equal
+                    } else {
+                        Ordering::Greater
+                    }
                 } else {
                     Ordering::Less
                 }
